@@ -432,7 +432,7 @@ def check_newfunc_cfi(name, bodies, mods):
 
 # ------------------------------------------------------------------ patches whose own directives sit around their own labels
 # shape string over L (a fresh temporary label), M (.cfi_remember_state), U (.cfi_undefined 3), S (.cfi_restore_state),
-# P (tagged instruction).  Every shape with properly nested M..S, U only inside, stack empty at the end ("balanced") and at
+# P (tagged instruction), J (at most one unconditional jump to a block of the module; what follows it is only reachable through a label).  Every shape with properly nested M..S, U only inside, stack empty at the end ("balanced") and at
 # least one instruction and one M is generated: the assembler opens a block at every label, so directives written around
 # labels travel through its empty-block clean-up before the rewriter sees them.
 SHAPE_SITES = [("two-procs", "B", 1), ("two-procs", "A", 2), ("dense", "DN", 2)]
@@ -444,7 +444,9 @@ def shapes(maxlen):
 
     out = []
     for n in range(2, maxlen + 1):
-        for seq in itertools.product("LMUSP", repeat=n):
+        for seq in itertools.product("LMUSPJ", repeat=n):
+            if seq.count("J") > 1 or (seq.count("J") and n > maxlen - 1):
+                continue
             d = 0
             ok = True
             for c in seq:
@@ -463,7 +465,7 @@ def shapes(maxlen):
     return out
 
 
-def shape_patch(shape):
+def shape_patch(shape, jump_to="C"):
     p = []
     nl = 0
     for c in shape:
@@ -476,6 +478,8 @@ def shape_patch(shape):
             p.append(["cfi", ".cfi_undefined", [3]])
         elif c == "S":
             p.append(["cfi", ".cfi_restore_state", []])
+        elif c == "J":
+            p.append(["jmp", jump_to])  # an unconditional transfer in the middle of the patch
         else:
             p.append(["p", 0])
     return p
@@ -525,7 +529,7 @@ def run_task(task):
         ml, lo, hi = first
         for shape in shapes(ml)[lo:hi]:
             for mname, b, k in SHAPE_SITES:
-                mods = scen.retag([{"op": "ins", "b": b, "k": k, "p": shape_patch(shape)}])
+                mods = scen.retag([{"op": "ins", "b": b, "k": k, "p": shape_patch(shape, "C" if mname == "two-procs" else "DN2")}])
                 outcome, diffs, E = check(MODULES[mname], mods)
                 res.case((mname, mods), nontrivial=True, outcome=outcome.split(";")[-1][:80])
                 if diffs:
